@@ -98,6 +98,7 @@ def ob_do_handle(report, prop):
         ex, fn, res = run_do_handle()
         hf = struct_fields(RH, 'BiStreamRequestHandler')
         seen = set()
+        SELF = e2.upvar_base(ex, fn, 0)       # `self` moved into the future (gen.0) or borrowed by it (`&mut self`: gen.0.*)
         for r in res:
             fs_ = framed_state_touched(r)
             if fs_:
@@ -115,7 +116,7 @@ def ob_do_handle(report, prop):
             rr = [i for i, e in enumerate(evs) if e.kind == 'read-request']
             wr = [i for i, e in enumerate(evs) if e.kind == 'write-response']
             sel = [i for i, e in enumerate(evs) if e.kind == 'select']
-            if len(rr) != 1 or vname(evs[rr[0]].args[0]) != f'gen.0.{hf.index("recv_stream")}':
+            if len(rr) != 1 or vname(evs[rr[0]].args[0]) != f'{SELF}.{hf.index("recv_stream")}':
                 return viol(prop, ob, [ex], 'the request is not read exactly once from the stream\'s own receive half', 'handle-read', path_summary(r), len(res))
             if len(inv) > 1:
                 return viol(prop, ob, [ex], 'a request is delivered to the service more than once', 'handle-double-invoke', path_summary(r), len(res))
@@ -124,14 +125,17 @@ def ob_do_handle(report, prop):
                 req = evs[inv[0]].args[1]
                 if inv[0] < rr[0] or vname(req) != 'poll(read_request_future)#1@Ok.0':
                     return viol(prop, ob, [ex], f'the service is invoked with {vrepr(req)[:80]}, not with the request decoded from this stream (after decoding succeeded)', 'handle-invoke-arg', path_summary(r), len(res))
-                if vname(evs[inv[0]].args[0]) != f'gen.0.{hf.index("service")}':
+                svc_v = evs[inv[0]].args[0]
+                svc_own = f'{SELF}.{hf.index("service")}'
+                if vname(svc_v) != svc_own and not (isinstance(svc_v, Sym) and (svc_v.get_ov('from') or ('', ()))[0].endswith('Clone>::clone') and
+                                                    vname(ex.deref(r.path, svc_v.get_ov('from')[1][0]) if isinstance(svc_v.get_ov('from')[1][0], Ptr) else svc_v.get_ov('from')[1][0]) == svc_own):
                     return viol(prop, ob, [ex], 'the service invoked is not the handler\'s own service', 'handle-service', path_summary(r), len(res))
                 if not any('poll(read_request_future)#1.discr == 0' in str(z3.simplify(c)).replace('0 == poll(read_request_future)#1.discr', 'poll(read_request_future)#1.discr == 0') for c in r.pc):
                     return viol(prop, ob, [ex], 'service invoked although decoding the request failed', 'handle-invoke-after-error', path_summary(r), len(res))
                 # identity extensions are attached before the service sees the request
                 ext = [e for e in evs[:inv[0]] if e.kind == 'ext-insert']
                 ids = [str(e.args[0]) for e in ext if isinstance(e.args[0], z3.ExprRef)]
-                own = f'gen.0.{hf.index("connection")}'
+                own = f'{SELF}.{hf.index("connection")}'
                 if f'pid({own})' not in ids:
                     return viol(prop, ob, [ex], f'the authenticated peer id of the connection is not attached to the request before the service is invoked (attached: {[vrepr(e.args[0])[:40] for e in ext]})',
                                 'handle-peer-id-ext', path_summary(r), len(res))
@@ -145,7 +149,7 @@ def ob_do_handle(report, prop):
                 if len(wr) != 1 or not inv or not sel or wr[0] < sel[0]:
                     return viol(prop, ob, [ex], 'a response is written without the service having produced one', 'handle-write-without-invoke', path_summary(r), len(res))
                 w = evs[wr[0]]
-                if vname(w.args[0]) != f'gen.0.{hf.index("send_stream")}':
+                if vname(w.args[0]) != f'{SELF}.{hf.index("send_stream")}':
                     return viol(prop, ob, [ex], 'the response is not written to the send half of the same stream', 'handle-write-stream', path_summary(r), len(res))
                 if not re.fullmatch(r'poll\(select_future\)#1@_0\.0(@Ok\.0)?', vname(w.args[1])):
                     return viol(prop, ob, [ex], f'the response written is {vrepr(w.args[1])[:80]}, not the value the service returned', 'handle-write-value', path_summary(r), len(res))
@@ -461,8 +465,17 @@ def ob_rpc_state_released_on_drop(report, prop):
             for i, op, tgt, in_drop in rmw(r):
                 held.setdefault(tgt, r)
         # ... and put back explicitly (not by a Drop) on a completion path
+        def base(t):
+            return re.sub(r'\.\d+$', '', t)
         for r in done:
             ops = rmw(r)
+            # a hand-over protocol spread over two counters of one shared object (take a ticket before waiting, advance `now_serving` afterwards) is the same leak
+            for (i, op1, t1, _d1) in ops:
+                for (j, op2, t2, d2) in ops:
+                    if j > i and t1 != t2 and base(t1) == base(t2) and t1 in held and not d2 and any(e.kind == 'poll' for e in r.events[i:j]):
+                        return viol(prop, ob, [ex], f'do_rpc updates {t1} ({op1}) before a suspension point and completes the hand-over on {t2} ({op2}) only after it, outside any Drop: an RPC abandoned '
+                                    'while it waits never performs the second step - every caller queued behind it on this connection waits for ever', 'rpc-state-leaks-on-drop',
+                                    path_summary(held[t1]), len(res))
             for tgt in {t for _, _, t, _ in ops}:
                 mine = [o for o in ops if o[2] == tgt]
                 if tgt in held and len(mine) >= 2 and not mine[-1][3]:
